@@ -1074,6 +1074,7 @@ pub fn run_c02(r: &Runner) {
         });
     }
     families_phase(r, "prefix", &any_entry, check_c02);
+    chunk_sweep_phase(r, "prefix", check_c02);
     // extension direction: heads from the hygiene sweeps followed by 72 bytes of padding, so
     // that the same head is scanned once inside the last <32 bytes of a buffer and once
     // with plenty of bytes after it
@@ -1147,6 +1148,7 @@ pub fn run_c03(r: &Runner) {
         });
     }
     families_phase(r, "frame", &any_entry, check_c03);
+    chunk_sweep_phase(r, "frame", check_c03);
     literal_sweep(r, "frame", check_c03);
     let g = GenSpec { kinds: &ALL_KINDS, profile: Profile { truncate: 40, ..Profile::DEFAULT }, generous_cap: false, cfg_mask: 0x7f, cfg_entry_only: false };
     r.par_random(
